@@ -643,18 +643,35 @@ func (e *Engine) convert(st *State, f *Frame, ins *ssa.Convert) bool {
 		}
 		// []rune
 		n := e.sliceCapN(st, s)
-		if !s.Len.IsConst() {
-			e.setReg(f, ins, Poison{"string([]rune) symbolic length"})
-			return true
-		}
 		rs := make([]rune, n)
+		concrete := s.Len.IsConst()
+		ts := make([]*Term, n)
 		for i := 0; i < n; i++ {
 			t, ok := e.loadPtr(st, e.sliceElemPtr(s, e.c64(i))).(*Term)
-			if !ok || !t.IsConst() {
-				e.setReg(f, ins, Poison{"string([]rune) symbolic"})
+			if !ok {
+				e.setReg(f, ins, Poison{"string([]rune) of non-terms"})
 				return true
 			}
-			rs[i] = rune(sext64(t.Val, 32))
+			ts[i] = t
+			if !t.IsConst() {
+				concrete = false
+			} else {
+				rs[i] = rune(sext64(t.Val, 32))
+			}
+		}
+		if !concrete {
+			// symbolic runes: exact for ASCII (one byte per rune)
+			arr := &Agg{Elems: make([]Value, n), Epoch: -1}
+			for i := 0; i < n; i++ {
+				if ts[i].Hi >= 0x80 {
+					e.setReg(f, ins, Poison{"string([]rune) with symbolic non-ASCII runes"})
+					return true
+				}
+				arr.Elems[i] = e.tt.Extract(ts[i], 7, 0)
+			}
+			o := e.newObj(st, nil, "runes2str", arr)
+			e.setReg(f, ins, e.normStr(st, Str{Obj: o, Off: e.c64(0), Len: s.Len}))
+			return true
 		}
 		e.setReg(f, ins, Str{Conc: true, S: string(rs)})
 	case isString(from): // string -> []byte / []rune
